@@ -20,6 +20,12 @@ CHECKS = {
     "C08": ("model_checking", "TLC model checking of ClientRead.tla (ReadOp over frame-class streams, cuts, subscription changes) + TLC-generated behaviours executed with a real Client on a scripted socket + TLC trace validation of every read_message call",
             "NeverUnsubscribed, ErrorConsumesOffender, InOrder, LossReported, NoSilentLoss are invariants checked by TLC over all streams of the bound; on the real Client each call's result is compared byte-for-byte with the frame that was put on the wire (header except recv_time, payload), the exception class, the connected flag and the exact set of whole frames left unread, under several segment sizes and both header layouts.", "DESIGN.md 3/C08",
             "Trusted base: TLC, ClientRead.tla, vf/readdrv.py scripted socket (MSG_WAITALL short read on FIN, ConnectionResetError on RST, segmented non-WAITALL reads). Reads that would block forever are excluded."),
+    "C11": ("model_checking", "TLC checks the layout theorems of Layout.tla for every field sequence of the bound and exports the expected padded layout per sequence; one implementation test per exported sequence on the real parser (+ gcc _Static_assert)",
+            "Natural / OnlyCharPadding / UserFieldsPreserved / Minimal / NoPadIffAccepted are checked by TLC for all 22k sequences over widths 1/2/4/8 x array shapes x nested structs (alignment 1/2/4/8, incl. field-list reuse) and around the 65535-byte limit; each exported sequence is parsed by the real parser with auto_pad on (field list, offsets, size, alignment must equal the spec's) and off (accepted iff no padding needed); accepted layouts are compiled to C and asserted with gcc.", "DESIGN.md 3/C11", "Trusted base: TLC, the TLA+ module, the YAML materialisation in vf/defs.py and the property module, gcc 12 (x86-64) as reference C layout. The real parser/compiler is run from /repo/src in-process; bounded alphabets as stated in the evidence."),
+    "C12": ("model_checking", "TLC proves traversal == declarative closure semantics on Imports.tla for a catalogue of 51k cases and exports them; each case is materialised as YAML files (nested directories, varied import path spellings) and parsed by the real parser",
+            "ReadOnce / DetectsExactly / RightClass are invariants over 10 import-graph shapes (diamond, repeated, cyclic, self import, cousins) x placements of two planted items x 9 kinds x {unrelated, same name, same id, both}; the real parser must raise the specified error class or register exactly the items of the reached files (each file once); id-range boundaries are checked with the core definitions loaded.", "DESIGN.md 3/C12", "Trusted base: TLC, the TLA+ module, the YAML materialisation in vf/defs.py and the property module, gcc 12 (x86-64) as reference C layout. The real parser/compiler is run from /repo/src in-process; bounded alphabets as stated in the evidence."),
+    "C13": ("model_checking", "TLC checks on HashCanon.tla that edits change the canonical key and noise does not, exports edit/relocation behaviours; every version is compiled by the real compiler: equal hash <=> equal canonical key, same value in all four outputs (also after in-place rebuilds), stamped into header.version by a real Client (also after reloading regenerated definitions)",
+            "EditChanges / NoiseKeeps are action properties checked by TLC; versions of one definition (rename, id change, field rename/retype/insert/delete/swap, signal<->message; comments, blank lines, unrelated definitions, moves into imported / sub-directory / nested-import files, import order, hex id, other process with another PYTHONHASHSEED and cwd) are compiled and compared pairwise.", "DESIGN.md 3/C13", "Trusted base: TLC, the TLA+ module, the YAML materialisation in vf/defs.py and the property module, gcc 12 (x86-64) as reference C layout. The real parser/compiler is run from /repo/src in-process; bounded alphabets as stated in the evidence."),
     "C14": ("model_checking", "TLC model checking (Routing, Failures: every writable subset, up to two dead peers) + replay with scripted select / failing writes + trace validation of FAILED_MESSAGE notices",
             "FailureReported, LoggerWaitedFor, NoNoticeForNotices checked by TLC for every readiness schedule in the bound; the harness makes select report exactly the chosen writable set and makes chosen writes fail on the real manager; TLC validates notice content, recipients and that the others still got the message.", "DESIGN.md 3/C14", HUB_NOTE),
     "C19": ("model_checking", "TLC model checking of the four ACK clauses (Routing, Identity) + replay + trace validation of ACK frames on every connection incl. loggers",
